@@ -19,6 +19,18 @@ from ..c02_util import (LAYOUTS, SHAPES, SHAPE_BY_NAME, USER_FNS, EFFECT_TEXT, G
 
 PROP = "C02"
 F_BRACKET = "C02-continuation-bracket-line"
+F_CTX = "C02-context-effect"      # listed as "fixed"; the fingerprint below only matters if it is ever re-listed as "known"
+
+
+def ctx_effect_fingerprint(chk, c1, impl_obs):
+    """the failing single-request case is explained by 'the effect definition of the enforce context is ignored':
+    context shape, e<sfx> differs from e, and the implementation answers what the spec says under the plain e"""
+    sh = SHAPE_BY_NAME[c1["shape"]]
+    if not sh.sfx or c1.get("etype") is not None or c1["effect"] == 0:
+        return False
+    d = dict(c1)
+    d["effect"] = 0
+    return chk.oracle.query(oracle_reqs(d)[1]) == impl_obs
 
 
 # ------------------------------------------------------------------------------ cases
@@ -321,7 +333,10 @@ def run(chk, n_asts, maxdepth, vm_n, nonconst_n):
             if o[i] != s[i]:
                 c1 = one_request(c, i)
                 known = bracket_last_line(c["lines"])
-                if not known and reported < 3:
+                if not known and ctx_effect_fingerprint(chk, c1, [o[i]]):
+                    chk.spec_fail(c1, o[i], s[i], "the effect definition selected by the enforce context is not the one "
+                                  "that combines the matching rules", finding=F_CTX)
+                elif not known and reported < 3:
                     reported += 1
                     try:
                         c1 = shrink(chk, c1)
